@@ -9,6 +9,7 @@ CONSTANTS
   MaxMisplaced = 1000
   MaxTop = 1000
   MinKids = 0
+  Once = {}
 CONSTRAINT HWM
 POSTCONDITION TraceAccepted
 CHECK_DEADLOCK FALSE
